@@ -79,12 +79,31 @@ def run_instance(args):
         has = [pid not in inst["missing"] for pid in PIDS]
         f = np.array([[inst["table"][pid][k] if h else 0 for k in range(n)] for pid, h in zip(PIDS, has)], dtype=float)
         raw, rawerr = apply.apply_grids(eko, f[None, :, :])
+        raw0 = {k: np.array(v, copy=True) for k, v in raw.items()}
+        rawerr0 = {k: np.array(v, copy=True) for k, v in rawerr.items()}
+        low = {}
         mu20 = float(eko.mu20)
         variants = inst["variants"] if nvar >= len(inst["variants"]) else rng.sample(inst["variants"], nvar)
         for rotate, tgt in variants:
             pdf = drv.PdfLike(inst["table"], g, missing=inst["missing"])
             out, outerr = apply.apply_pdf(eko, pdf, targetgrid=[float(x) for x in tgt] if tgt else None,
                                           rotate_to_evolution_basis=rotate)
+            # the same variant through the two-step interface, on the ONE contraction output of this instance
+            from eko import basis_rotation as br
+
+            if rotate:
+                rot = br.rotate_flavor_to_unified_evolution if inst["qed"] else br.rotate_flavor_to_evolution
+                labs = br.unified_evol_basis_pids if inst["qed"] else br.evol_basis_pids
+            else:
+                rot, labs = None, br.flavor_basis_pids
+            tg = [float(x) for x in tgt] if tgt else None
+            lo = apply.rotate_result(eko, raw, labs, tg, rot)
+            loe = apply.rotate_result(eko, rawerr, labs, tg, rot)
+            for k in out:
+                same = all(np.array_equal(np.asarray(lo[k][lab])[0], np.asarray(out[k][lab])) for lab in out[k])
+                if k in outerr:
+                    same = same and all(np.array_equal(np.asarray(loe[k][lab])[0], np.asarray(outerr[k][lab])) for lab in outerr[k])
+                low[(rotate, tuple(tgt), k)] = "same" if same else "differs-from-apply-pdf"
             q2ok = all(q2 == mu20 and any(x == float(y) for y in g) for _, x, q2 in pdf.calls)
             # what the object returned, as exact rationals: x * table
             xfx = [[drv.rj(g[k] * inst["table"][pid][k]) for k in range(n)] for pid in PIDS]
@@ -124,7 +143,14 @@ def run_instance(args):
                 rec["out"] = conv(out[key])
                 rec["outerr"] = conv(outerr[key]) if key in outerr else []
                 rec["exact"] = bool(exact)
+                rec["lowlevel"] = low.get((rotate, tuple(tgt), key), "same")
+                rec["_key"] = key
                 recs.append(rec)
+        intact = all(np.array_equal(raw[k], raw0[k]) for k in raw0) and all(np.array_equal(rawerr[k], rawerr0[k]) for k in rawerr0)
+        for rec in recs:
+            rec.pop("_key", None)
+            if not intact and rec["lowlevel"] == "same":
+                rec["lowlevel"] = "contraction-output-modified"
     finally:
         se.close()
     return recs
